@@ -402,6 +402,44 @@ func checkC08(c c08Case) *evid.Fail {
 		if (eerr == nil) != (err == nil) || (deterministic && eerr == nil && !equalVal(fromVariant(ev), got)) {
 			return evid.F("direct-vs-expression:"+lname, "%s: direct call gives %s, expression %q gives %s", desc, resultRepr(v, err), expr, resultRepr(ev, eerr))
 		}
+		// arguments written as literals where the language has a literal for the value, and the operations manager
+		// selected only after the expression was set
+		lits := make([]string, len(c.Args))
+		allLit := true
+		for i, a := range c.Args {
+			switch {
+			case a.K == "int" && a.I >= 0 && a.I < 1<<53:
+				lits[i] = fmt.Sprint(a.I)
+			case a.K == "int" && a.I < 0 && a.I > -(1<<53):
+				lits[i] = fmt.Sprintf("(0 - %d)", -a.I)
+			case a.K == "string" && !strings.ContainsAny(a.S, "\x00"):
+				lits[i] = "'" + strings.ReplaceAll(a.S, "'", "''") + "'"
+			case a.K == "bool":
+				lits[i] = map[bool]string{true: "TRUE", false: "false"}[a.I != 0]
+			case a.K == "float" && a.f32() == float32(int32(a.f32()*4))/4 && a.f32() >= 0:
+				lits[i] = strings.TrimRight(fmt.Sprintf("%.2f", a.f32()), "0")
+			default:
+				allLit = false
+			}
+		}
+		if allLit && len(c.Args) > 0 && deterministic {
+			lexpr := c.Name + "(" + strings.Join(lits, ", ") + ")"
+			calc2 := calculator.NewExpressionCalculator()
+			var lv *variants.Variant
+			var lerr error
+			if g := guard(func() {
+				if lerr = calc2.SetExpression(lexpr); lerr == nil {
+					calc2.SetVariantOperations(ops) // after the expression
+					lv, lerr = calc2.Evaluate()
+				}
+			}); g != nil {
+				g.Msg = fmt.Sprintf("expression %q: %s", lexpr, g.Msg)
+				return g
+			}
+			if (lerr == nil) != (err == nil) || (lerr == nil && !equalVal(fromVariant(lv), got)) {
+				return evid.F("direct-vs-literal-expression:"+lname, "%s: direct call gives %s, expression %q (manager set after the expression) gives %s", desc, resultRepr(v, err), lexpr, resultRepr(lv, lerr))
+			}
+		}
 	}
 	return nil
 }
